@@ -124,31 +124,102 @@ func c16Selection(r *core.Run, p *core.Prog) {
 			}
 			return true
 		})
-		var posLoop, negLoop *ast.RangeStmt
+		var posLoop *ast.RangeStmt
 		core.Walk(f.Decl.Body, false, func(x ast.Node) bool {
-			if rs, ok := x.(*ast.RangeStmt); ok {
-				switch core.ObjOf(info, rs.X) {
-				case pos:
-					posLoop = rs
-				case neg:
-					negLoop = rs
-				}
+			if rs, ok := x.(*ast.RangeStmt); ok && pos != nil && core.ObjOf(info, rs.X) == pos {
+				posLoop = rs
 			}
 			return true
 		})
-		if pos == nil || neg == nil || all == nil || posLoop == nil || negLoop == nil {
-			r.Undecided(rule, "parseIfaceList:structure", where, "positive / negative selection loops not recognised")
-		} else {
-			r.Check(rule, "parseIfaceList:negations-after-selections", where, negLoop.Pos() > posLoop.End(), "negated names must be removed after all positive names (and 'any') were added")
-			// positive loop: any -> result = all ; Contains(all, name) -> append
-			okAny, okKnown := false, false
-			core.Walk(posLoop.Body, false, func(x ast.Node) bool {
-				if a, ok := x.(*ast.AssignStmt); ok && len(a.Lhs) == 1 && len(a.Rhs) == 1 {
-					if core.ObjOf(info, a.Rhs[0]) == all {
-						result = core.ObjOf(info, a.Lhs[0])
-						okAny = true
+		// negLoopIn: the loop over the negated names in fn (range loop, or index loop `i < len(neg)` with the element taken
+		// as neg[i]); returns the loop body, the element variable and the loop position
+		type negLoopT struct {
+			fn   *core.Fn
+			body *ast.BlockStmt
+			elem types.Object
+			pos  token.Pos
+			res  types.Object // the variable holding the selection inside fn
+		}
+		var findNeg func(fn *core.Fn, negObj, resObj types.Object, depth int) *negLoopT
+		findNeg = func(fn *core.Fn, negObj, resObj types.Object, depth int) *negLoopT {
+			fi := fn.Info()
+			var out *negLoopT
+			core.Walk(fn.Decl.Body, false, func(x ast.Node) bool {
+				switch l := x.(type) {
+				case *ast.RangeStmt:
+					if core.ObjOf(fi, l.X) == negObj && l.Value != nil {
+						out = &negLoopT{fn, l.Body, core.ObjOf(fi, l.Value), l.Pos(), resObj}
+					}
+				case *ast.ForStmt:
+					if bc, ok := core.BinOp(l.Cond, token.LSS); ok {
+						if la, ok := lenArg(fi, stripConv(fi, bc.Y)); ok && core.ObjOf(fi, la) == negObj {
+							idx := core.ObjOf(fi, bc.X)
+							// elem := neg[i]
+							core.Walk(l.Body, false, func(y ast.Node) bool {
+								if as, ok := y.(*ast.AssignStmt); ok && len(as.Lhs) == 1 && len(as.Rhs) == 1 {
+									if ix, ok := ast.Unparen(as.Rhs[0]).(*ast.IndexExpr); ok && core.ObjOf(fi, ix.X) == negObj && core.ObjOf(fi, ix.Index) == idx {
+										out = &negLoopT{fn, l.Body, core.ObjOf(fi, as.Lhs[0]), l.Pos(), resObj}
+									}
+								}
+								return true
+							})
+						}
 					}
 				}
+				return true
+			})
+			if out != nil || depth > 0 {
+				return out
+			}
+			// handed to a helper together with the selection
+			for _, c := range core.Calls(fn.Decl.Body, false) {
+				fo, _ := core.Callee(fi, c).(*types.Func)
+				h := p.FnOf(fo)
+				if h == nil {
+					continue
+				}
+				hs := h.Obj.Type().(*types.Signature)
+				var hNeg, hRes types.Object
+				for ai, a := range c.Args {
+					if ai >= hs.Params().Len() {
+						break
+					}
+					switch core.ObjOf(fi, a) {
+					case negObj:
+						hNeg = hs.Params().At(ai)
+					case resObj:
+						hRes = hs.Params().At(ai)
+					}
+				}
+				if hNeg != nil && hRes != nil {
+					if nl := findNeg(h, hNeg, hRes, depth+1); nl != nil {
+						nl.pos = c.Pos() // position of the hand-over in the caller
+						return nl
+					}
+				}
+			}
+			return nil
+		}
+		// the selection variable: assigned `all` inside the positive loop
+		if posLoop != nil {
+			core.Walk(posLoop.Body, false, func(x ast.Node) bool {
+				if a, ok := x.(*ast.AssignStmt); ok && len(a.Lhs) == 1 && len(a.Rhs) == 1 && all != nil && core.ObjOf(info, a.Rhs[0]) == all {
+					result = core.ObjOf(info, a.Lhs[0])
+				}
+				return true
+			})
+		}
+		var negL *negLoopT
+		if neg != nil && result != nil {
+			negL = findNeg(f, neg, result, 0)
+		}
+		if pos == nil || neg == nil || all == nil || posLoop == nil || negL == nil {
+			r.Undecided(rule, "parseIfaceList:structure", where, "positive / negative selection loops not recognised")
+		} else {
+			r.Check(rule, "parseIfaceList:negations-after-selections", where, negL.pos > posLoop.End(), "negated names must be removed after all positive names (and 'any') were added")
+			// positive loop: any -> result = all ; Contains(all, name) -> append
+			okAny, okKnown := result != nil, false
+			core.Walk(posLoop.Body, false, func(x ast.Node) bool {
 				if c, ok := x.(*ast.CallExpr); ok && core.CallName(info, c) == "slices.Contains" && len(c.Args) == 2 && core.ObjOf(info, c.Args[0]) == all {
 					okKnown = true
 				}
@@ -158,21 +229,19 @@ func c16Selection(r *core.Run, p *core.Prog) {
 			r.Check(rule, "parseIfaceList:unknown-names-dropped", p.Rel(posLoop.Pos()), okKnown, "a listed name is kept only if the lister knows it")
 			// negative loop: result = slices.DeleteFunc(result, func(v) bool { return v == notIface })
 			okDel := false
-			var negVar types.Object
-			if negLoop.Value != nil {
-				negVar = core.ObjOf(info, negLoop.Value)
-			}
-			core.Walk(negLoop.Body, false, func(x ast.Node) bool {
+			ni := negL.fn.Info()
+			negVar, nres := negL.elem, negL.res
+			core.Walk(negL.body, false, func(x ast.Node) bool {
 				a, ok := x.(*ast.AssignStmt)
-				if !ok || len(a.Lhs) != 1 || len(a.Rhs) != 1 || core.ObjOf(info, a.Lhs[0]) != result {
+				if !ok || len(a.Lhs) != 1 || len(a.Rhs) != 1 || core.ObjOf(ni, a.Lhs[0]) != nres {
 					return true
 				}
 				c, ok := a.Rhs[0].(*ast.CallExpr)
-				if !ok || core.CallName(info, c) != "slices.DeleteFunc" || len(c.Args) != 2 || core.ObjOf(info, c.Args[0]) != result {
+				if !ok || core.CallName(ni, c) != "slices.DeleteFunc" || len(c.Args) != 2 || core.ObjOf(ni, c.Args[0]) != nres {
 					return true
 				}
-				if fl, ok := c.Args[1].(*ast.FuncLit); ok {
-					bf := abstractBoolFn(info, fl.Body)
+				if fb, fi2 := funcBodyOf(p, ni, negL.fn.Decl.Body, c.Args[1]); fb != nil {
+					bf := abstractBoolFn(fi2, fb)
 					if bf.undec == "" && len(bf.rels) == 1 && len(bf.bools) == 0 {
 						k := bf.rels[0]
 						okEq := true
@@ -181,26 +250,40 @@ func c16Selection(r *core.Run, p *core.Prog) {
 								okEq = false
 							}
 						}
-						mentions := negVar != nil && (core.MentionsObj(info, bf.relX[k], negVar) || core.MentionsObj(info, bf.relY[k], negVar))
+						mentions := negVar != nil && (core.MentionsObj(fi2, bf.relX[k], negVar) || core.MentionsObj(fi2, bf.relY[k], negVar))
 						okDel = okEq && mentions
 					}
 				}
 				return true
 			})
 			hz := rangeMutationHazards(p, f)
+			if negL.fn != f {
+				hz = append(hz, rangeMutationHazards(p, negL.fn)...)
+				// the helper's result must be what the caller returns / keeps
+				retOK := false
+				core.Walk(negL.fn.Decl.Body, false, func(x ast.Node) bool {
+					if rs, ok := x.(*ast.ReturnStmt); ok && len(rs.Results) >= 1 && core.ObjOf(ni, rs.Results[0]) == nres {
+						retOK = true
+					}
+					return true
+				})
+				if !retOK {
+					hz = append(hz, negL.fn.Name+" does not return the filtered selection")
+				}
+			}
 			// second accepted idiom: an explicit filter loop over the whole result that keeps the entries != name
 			otherIdiom := false
-			core.Walk(negLoop.Body, false, func(x ast.Node) bool {
+			core.Walk(negL.body, false, func(x ast.Node) bool {
 				rs, ok := x.(*ast.RangeStmt)
-				if !ok || core.ObjOf(info, rs.X) != result || rs.Value == nil {
+				if !ok || core.ObjOf(ni, rs.X) != nres || rs.Value == nil {
 					return true
 				}
-				v := core.ObjOf(info, rs.Value)
+				v := core.ObjOf(ni, rs.Value)
 				core.Walk(rs.Body, false, func(y ast.Node) bool {
 					if ifs, ok := y.(*ast.IfStmt); ok {
-						if b, ok := core.BinOp(ifs.Cond, token.NEQ); ok && ((core.ObjOf(info, b.X) == v && core.ObjOf(info, b.Y) == negVar) || (core.ObjOf(info, b.Y) == v && core.ObjOf(info, b.X) == negVar)) {
+						if bx, by, eq, ok := eqTest(ifs.Cond, true); ok && !eq && ((core.ObjOf(ni, bx) == v && core.ObjOf(ni, by) == negVar) || (core.ObjOf(ni, by) == v && core.ObjOf(ni, bx) == negVar)) {
 							core.Walk(ifs.Body, false, func(z ast.Node) bool {
-								if ap, ok := z.(*ast.CallExpr); ok && core.CallName(info, ap) == "builtin.append" && len(ap.Args) == 2 && core.ObjOf(info, ap.Args[1]) == v && core.ObjOf(info, ap.Args[0]) != result {
+								if ap, ok := z.(*ast.CallExpr); ok && core.CallName(ni, ap) == "builtin.append" && len(ap.Args) == 2 && core.ObjOf(ni, ap.Args[1]) == v && core.ObjOf(ni, ap.Args[0]) != nres {
 									otherIdiom = true
 								}
 								return true
@@ -211,7 +294,7 @@ func c16Selection(r *core.Run, p *core.Prog) {
 				})
 				return true
 			})
-			r.Check(rule, "parseIfaceList:negation-removes-every-occurrence", p.Rel(negLoop.Pos()), (okDel || otherIdiom) && len(hz) == 0,
+			r.Check(rule, "parseIfaceList:negation-removes-every-occurrence", p.Rel(negL.pos), (okDel || otherIdiom) && len(hz) == 0,
 				"each negated name must be removed from the whole result — recognised idioms: result = slices.DeleteFunc(result, func(v) { return v == name }), or a filter loop appending the entries != name to a fresh slice; removing by index (first occurrence only) leaves repeated names selected; "+strings.Join(hz, "; "))
 		}
 	}
@@ -231,36 +314,88 @@ func c16Selection(r *core.Run, p *core.Prog) {
 				if c, ok := x.(*ast.CallExpr); ok && core.CallName(info, c) == "pkg/types.ValidateIfaceName" && len(c.Args) == 1 && core.ObjOf(info, c.Args[0]) == name {
 					okValidate = true
 				}
-				ifs, ok := x.(*ast.IfStmt)
-				if !ok {
-					return true
-				}
-				c, ok := ifs.Cond.(*ast.CallExpr)
-				if !ok || core.CallName(info, c) != "strings.HasPrefix" || len(c.Args) != 2 || core.ObjOf(info, c.Args[0]) != name {
-					return true
-				}
-				if s, ok := core.ConstStr(info, c.Args[1]); !ok || s != "!" {
-					return true
-				}
-				// then: negative = append(negative, name[1:]); else: positive = append(positive, name)
-				thenStr, elseStr := "", ""
-				core.Walk(ifs.Body, false, func(y ast.Node) bool {
-					if ap, ok := y.(*ast.CallExpr); ok && core.CallName(info, ap) == "builtin.append" && len(ap.Args) == 2 {
-						thenStr = core.Str(ap.Args[1])
-					}
-					return true
-				})
-				if ifs.Else != nil {
-					core.Walk(ifs.Else, false, func(y ast.Node) bool {
-						if ap, ok := y.(*ast.CallExpr); ok && core.CallName(info, ap) == "builtin.append" && len(ap.Args) == 2 {
-							elseStr = core.Str(ap.Args[1])
-						}
-						return true
-					})
-				}
-				okRoute = thenStr == name.Name()+"[1:]" && elseStr == name.Name()
 				return true
 			})
+			// per path through the loop body: outcome of HasPrefix(name, "!") (any polarity / branch order) and what is appended
+			sig := f.Obj.Type().(*types.Signature)
+			_ = sig
+			wrap := &ast.BlockStmt{List: loop.Body.List}
+			g := core.NewGraph(info, wrap)
+			paths, okP := g.Paths(core.Entry, core.Exit, 2000)
+			nNeg, nPos := 0, 0
+			okRoute = okP
+			// which slice is returned first (positive) / second (negative)
+			var retPos, retNeg types.Object
+			core.Walk(f.Decl.Body, false, func(x ast.Node) bool {
+				if rs, ok := x.(*ast.ReturnStmt); ok && len(rs.Results) == 3 && core.IsNil(info, rs.Results[2]) {
+					retPos, retNeg = core.ObjOf(info, rs.Results[0]), core.ObjOf(info, rs.Results[1])
+				}
+				return true
+			})
+			for _, path := range paths {
+				bang, known := false, false
+				var apps []string
+				returns := false
+				for i, id := range path {
+					n := g.Nodes[id]
+					if n == nil {
+						continue
+					}
+					if tk, isC := g.Taken(path, i); isC {
+						atom, truth := normCond(n.(ast.Expr), tk)
+						if c, ok := atom.(*ast.CallExpr); ok && core.CallName(info, c) == "strings.HasPrefix" && len(c.Args) == 2 && core.ObjOf(info, c.Args[0]) == name {
+							if sfx, ok := core.ConstStr(info, c.Args[1]); ok && sfx == "!" {
+								bang, known = truth, true
+							}
+						}
+						continue
+					}
+					if _, ok := n.(*ast.ReturnStmt); ok {
+						returns = true
+					}
+					if a, ok := n.(*ast.AssignStmt); ok && len(a.Lhs) == 1 && len(a.Rhs) == 1 {
+						if ap, ok := a.Rhs[0].(*ast.CallExpr); ok && core.CallName(info, ap) == "builtin.append" && len(ap.Args) == 2 && core.ObjOf(info, ap.Args[0]) == core.ObjOf(info, a.Lhs[0]) {
+							dst := "?"
+							switch core.ObjOf(info, a.Lhs[0]) {
+							case retPos:
+								dst = "positive"
+							case retNeg:
+								dst = "negative"
+							}
+							val := "?"
+							if core.ObjOf(info, ap.Args[1]) == name {
+								val = "name"
+							} else if se, ok := ast.Unparen(ap.Args[1]).(*ast.SliceExpr); ok && core.ObjOf(info, se.X) == name && se.High == nil && se.Low != nil {
+								if k, okc := core.ConstInt(info, se.Low); okc && k == 1 {
+									val = "name-without-bang"
+								}
+							}
+							apps = append(apps, dst+"<-"+val)
+						}
+					}
+				}
+				if returns {
+					continue // validation error
+				}
+				got := strings.Join(apps, ",")
+				switch {
+				case known && bang:
+					nNeg++
+					if got != "negative<-name-without-bang" {
+						okRoute = false
+					}
+				case known && !bang:
+					nPos++
+					if got != "positive<-name" {
+						okRoute = false
+					}
+				default:
+					if got != "" {
+						okRoute = false
+					}
+				}
+			}
+			okRoute = okRoute && nNeg > 0 && nPos > 0 && retPos != nil && retNeg != nil
 		}
 		r.Check(rule, "ValidateAndSeparateFilters:routes-by-bang-prefix", p.Rel(f.Decl.Pos()), okRoute, "names with a leading '!' go to the negative list without the '!', all others unchanged to the positive list")
 		r.Check(rule, "ValidateAndSeparateFilters:validates-each-name", p.Rel(f.Decl.Pos()), okValidate, "every name must be validated")
